@@ -7,12 +7,16 @@ use crate::world::Role;
 
 #[derive(Clone, Copy, Debug, PartialEq, Eq, PartialOrd, Ord, Hash)]
 pub enum Family {
+    C02,
     C03,
     C04,
     C05,
     C06,
     C07,
     C08,
+    C10,
+    /// C10 at connection level: streamed payloads through the real dispatcher and handler
+    C10C,
     C11,
     C12,
     C13,
@@ -26,6 +30,9 @@ pub enum Family {
 impl Family {
     pub fn parse(s: &str) -> Option<Family> {
         Some(match s {
+            "C02" => Family::C02,
+            "C10" => Family::C10,
+            "C10C" => Family::C10C,
             "C03" => Family::C03,
             "C04" => Family::C04,
             "C05" => Family::C05,
@@ -45,6 +52,9 @@ impl Family {
     }
     pub fn name(self) -> &'static str {
         match self {
+            Family::C02 => "C02",
+            Family::C10 => "C10",
+            Family::C10C => "C10C",
             Family::C03 => "C03",
             Family::C04 => "C04",
             Family::C05 => "C05",
@@ -64,6 +74,9 @@ impl Family {
 }
 
 pub const ALL_FAMILIES: &[Family] = &[
+    Family::C02,
+    Family::C10,
+    Family::C10C,
     Family::C03,
     Family::C04,
     Family::C05,
@@ -82,6 +95,9 @@ pub const ALL_FAMILIES: &[Family] = &[
 
 pub fn generate(f: Family, ch: &mut Choices) -> Plan {
     match f {
+        // codec-level families are driven by codecsim::run, not by a connection plan
+        Family::C02 | Family::C10 => base_plan(if f == Family::C02 { "C02" } else { "C10" }, Role::S5, ch),
+        Family::C10C => gen_c10c(ch),
         Family::C03 => gen_c03(ch),
         Family::C04 => gen_c04(ch),
         Family::C05 => gen_outbound(OutKind::C05, ch),
@@ -618,11 +634,13 @@ fn gen_c12(ch: &mut Choices) -> Plan {
 
 /// A few byte strings no MQTT decoder accepts.
 pub fn undecodable(ch: &mut Choices) -> (Vec<u8>, &'static str) {
-    match ch.choose(4) {
+    match ch.choose(5) {
         0 => (vec![0x00, 0x00], "reserved packet type 0"),
         1 => (vec![0x30, 0xff, 0xff, 0xff, 0xff, 0x01], "remaining length with a fifth continuation byte"),
         2 => (vec![0x62, 0x01, 0x00], "PUBREL with a one-byte body"),
-        _ => (vec![0x40, 0x01, 0x00], "PUBACK with a one-byte body"),
+        3 => (vec![0x40, 0x01, 0x00], "PUBACK with a one-byte body"),
+        // (v3: id only; v5 reads the second id byte pair as id + empty properties: no filter either way)
+        _ => (vec![0x82, 0x03, 0x00, 0x01, 0x00], "SUBSCRIBE without a topic filter"),
     }
 }
 
@@ -1171,6 +1189,52 @@ fn gen_c20(ch: &mut Choices) -> Plan {
     }
     plan.ending = Ending::Settle;
     plan.max_steps = 20_000;
+    plan
+}
+
+
+// ------------------------------------------------------------------------------------------
+// C10 at connection level: the handler that reads the payload receives exactly the bytes sent
+
+fn gen_c10c(ch: &mut Choices) -> Plan {
+    let role = pick_role(ch);
+    let ver = role.ver();
+    let mut plan = base_plan("C10C", role, ch);
+    plan.cfg.min_chunk = *ch.pick(&[0u32, 1, 4, 1024, 32 * 1024]);
+    plan.cfg.max_payload_buf = *ch.pick(&[32 * 1024usize, 64, 1024, 128 * 1024]);
+    plan.cfg.rd_hw = *ch.pick(&[16 * 1024 - 24usize, 1024, 64 * 1024]);
+    plan.cfg.max_receive_size = 0;
+    plan.p_immediate = *ch.pick(&[1000u32, 0, 500]);
+    plan.w_payload = *ch.pick(&[[1u32, 0, 0], [0, 1, 0], [2, 2, 1]]);
+    plan.cut = match ch.choose(4) {
+        0 => Cut::All,
+        1 => Cut::Boundary,
+        _ => Cut::Random,
+    };
+    let n = 1 + ch.choose(4);
+    let mut total = 0usize;
+    for i in 0..n {
+        // sizes around chunk and varint boundaries
+        let len = *ch.pick(&[0usize, 1, 3, 4, 5, 63, 64, 65, 127, 128, 1023, 1024, 1025, 16_383, 16_384, 32_767, 32_768, 32_769, 70_000, 300 * 1024]);
+        if total + len > 400 * 1024 {
+            continue;
+        }
+        total += len;
+        let qos = if role.is_server() || ch.chance(1, 2) { ch.choose(3) as u8 } else { ch.choose(2) as u8 };
+        let pid = if qos > 0 { Some(10 + i as u16) } else { None };
+        let mut p = mk_publish(ver, ch, i, qos, pid, len);
+        p.dup = false;
+        plan.peer.script.push(step(Pkt::Publish(p), ver, Pre::Connected));
+        if ch.chance(1, 3) {
+            let x = if role.is_server() { Pkt::PingReq } else { Pkt::PingResp };
+            plan.peer.script.push(step(x, ver, Pre::Connected));
+        }
+    }
+    if plan.cut == Cut::Random && total < 600 && ch.chance(1, 2) {
+        plan.cut = Cut::Byte;
+    }
+    plan.ending = Ending::Settle;
+    plan.max_steps = 60_000;
     plan
 }
 
